@@ -3,10 +3,10 @@ import WacProofs.Lemmas.EncAgg2
 /-
   The scoping invariant of the encoder model, kept by every step of `encode`:
 
-  `SInv g A B st` — the builder's counters are the counters of the items emitted so far, the
+  `SInv g A B C st` — the builder's counters are the counters of the items emitted so far, the
   items are well scoped, every index the encoder remembers (`node_indexes`, `packages`,
   `implicit_args`, `instances`) is below the counter of its index space, every import item
-  emitted so far satisfies `A`, and the argument names of every instantiate item satisfy `B`.
+  emitted so far satisfies `A`, the argument list of every instantiate item `B`, every export item `C`.
   Nothing here depends on the hypotheses about the aggregated imports.
 -/
 namespace Wac
@@ -66,7 +66,8 @@ theorem operandsOk_mono {c c' : Kind → Nat} (h : ∀ k, c k ≤ c' k) (it : It
 
 /-! ### the invariant -/
 
-structure SInv (g : GraphVal) (A : Str → Kind → Prop) (B : List Str → Prop) (st : EncSt) : Prop where
+structure SInv (g : GraphVal) (A : Str → Kind → Prop) (B : List (Str × Kind × Nat) → Prop) (C : Str → Kind → Prop)
+    (st : EncSt) : Prop where
   cnt : st.cnt = countersOf st.items
   wsc : WellScoped st.items = true
   nodes : ∀ n idx, natGet st.nodeIdx n = some idx → idx < st.cnt (kindOf g n)
@@ -74,7 +75,8 @@ structure SInv (g : GraphVal) (A : Str → Kind → Prop) (B : List Str → Prop
   implicit : ∀ n, ∀ a ∈ implicitList st.implicit n, a.2.2 < st.cnt a.2.1
   instances : ∀ d i, amGet st.instances d = some i → i < st.cnt .instance
   imports : ∀ n k, Item.import n k ∈ st.items → A n k
-  insts : ∀ c args, Item.instantiate c args ∈ st.items → B (args.map (·.1))
+  insts : ∀ c args, Item.instantiate c args ∈ st.items → B args
+  exports : ∀ n k i, Item.export n k i ∈ st.items → C n k
 
 /-- the counters only grow -/
 def CntLe (st st' : EncSt) : Prop := ∀ k, st.cnt k ≤ st'.cnt k
@@ -83,8 +85,8 @@ theorem CntLe.refl (st : EncSt) : CntLe st st := fun _ => Nat.le_refl _
 theorem CntLe.trans {a b c : EncSt} (h1 : CntLe a b) (h2 : CntLe b c) : CntLe a c :=
   fun k => Nat.le_trans (h1 k) (h2 k)
 
-theorem SInv.init {g : GraphVal} {A B} : SInv g A B {} :=
-  ⟨rfl, rfl, by simp [natGet], by simp [natGet], by simp [implicitList, natGet], by simp [amGet], by simp, by simp⟩
+theorem SInv.init {g : GraphVal} {A B C} : SInv g A B C {} :=
+  ⟨rfl, rfl, by simp [natGet], by simp [natGet], by simp [implicitList, natGet], by simp [amGet], by simp, by simp, by simp⟩
 
 theorem emit_cntLe (st : EncSt) (it : Item) : CntLe st (st.emit it).1 := by
   intro k; rw [emit_cnt]; omega
@@ -96,11 +98,12 @@ theorem emit_snd_lt (st : EncSt) (it : Item) (k : Kind) (ha : it.alloc = some k)
     (st.emit it).2 < (st.emit it).1.cnt k := by
   rw [emit_snd st it k ha, emit_cnt]; simp [ha]
 
-theorem SInv.emit {g : GraphVal} {A B} {st : EncSt} (h : SInv g A B st) (it : Item)
+theorem SInv.emit {g : GraphVal} {A B C} {st : EncSt} (h : SInv g A B C st) (it : Item)
     (hop : operandsOk st.cnt it = true) (hA : ∀ n k, it = .import n k → A n k)
-    (hB : ∀ c args, it = .instantiate c args → B (args.map (·.1))) : SInv g A B (st.emit it).1 := by
+    (hB : ∀ c args, it = .instantiate c args → B args) (hC : ∀ n k i, it = .export n k i → C n k) :
+    SInv g A B C (st.emit it).1 := by
   have hle := emit_cntLe st it
-  refine ⟨?_, ?_, ?_, ?_, ?_, ?_, ?_, ?_⟩
+  refine ⟨?_, ?_, ?_, ?_, ?_, ?_, ?_, ?_, ?_⟩
   · funext k
     rw [emit_cnt, emit_items, countersOf_snoc, bump_apply, ← h.cnt]
   · rw [emit_items, wellScoped_snoc, h.wsc, ← h.cnt, hop]; rfl
@@ -128,39 +131,47 @@ theorem SInv.emit {g : GraphVal} {A B} {st : EncSt} (h : SInv g A B st) (it : It
     · exact h.insts c args h1
     · simp only [List.mem_singleton] at h1
       exact hB c args h1.symm
+  · intro n k i hm
+    rw [emit_items] at hm
+    rcases List.mem_append.mp hm with h1 | h1
+    · exact h.exports n k i h1
+    · simp only [List.mem_singleton] at h1
+      exact hC n k i h1.symm
 
-theorem SInv.emit_plain {g : GraphVal} {A B} {st : EncSt} (h : SInv g A B st) (it : Item)
-    (hop : operandsOk st.cnt it = true) (hA : ∀ n k, it ≠ .import n k) (hB : ∀ c args, it ≠ .instantiate c args) :
-    SInv g A B (st.emit it).1 :=
+theorem SInv.emit_plain {g : GraphVal} {A B C} {st : EncSt} (h : SInv g A B C st) (it : Item)
+    (hop : operandsOk st.cnt it = true) (hA : ∀ n k, it ≠ .import n k) (hB : ∀ c args, it ≠ .instantiate c args)
+    (hC : ∀ n k i, it ≠ .export n k i) :
+    SInv g A B C (st.emit it).1 :=
   h.emit it hop (fun n k e => absurd e (hA n k)) (fun c args e => absurd e (hB c args))
+    (fun n k i e => absurd e (hC n k i))
 
-theorem SInv.typeDef {g : GraphVal} {A B} {st : EncSt} (h : SInv g A B st) : SInv g A B (st.emit .typeDef).1 :=
-  h.emit_plain .typeDef rfl (by simp) (by simp)
+theorem SInv.typeDef {g : GraphVal} {A B C} {st : EncSt} (h : SInv g A B C st) : SInv g A B C (st.emit .typeDef).1 :=
+  h.emit_plain .typeDef rfl (by simp) (by simp) (by simp)
 
-theorem SInv.import {g : GraphVal} {A B} {st : EncSt} (h : SInv g A B st) (n : Str) (k : Kind) (hA : A n k) :
-    SInv g A B (st.emit (.import n k)).1 :=
-  h.emit _ rfl (by intro n' k' e; injection e with e1 e2; subst e1 e2; exact hA) (by simp)
+theorem SInv.import {g : GraphVal} {A B C} {st : EncSt} (h : SInv g A B C st) (n : Str) (k : Kind) (hA : A n k) :
+    SInv g A B C (st.emit (.import n k)).1 :=
+  h.emit _ rfl (by intro n' k' e; injection e with e1 e2; subst e1 e2; exact hA) (by simp) (by simp)
 
-theorem SInv.setInstances {g : GraphVal} {A B} {st : EncSt} (h : SInv g A B st) (x : List (Str × Nat))
-    (hx : ∀ d i, amGet x d = some i → i < st.cnt .instance) : SInv g A B { st with instances := x } :=
-  ⟨h.cnt, h.wsc, h.nodes, h.pkgs, h.implicit, hx, h.imports, h.insts⟩
+theorem SInv.setInstances {g : GraphVal} {A B C} {st : EncSt} (h : SInv g A B C st) (x : List (Str × Nat))
+    (hx : ∀ d i, amGet x d = some i → i < st.cnt .instance) : SInv g A B C { st with instances := x } :=
+  ⟨h.cnt, h.wsc, h.nodes, h.pkgs, h.implicit, hx, h.imports, h.insts, h.exports⟩
 
-theorem SInv.setImplicit {g : GraphVal} {A B} {st : EncSt} (h : SInv g A B st) (x : List (Nat × List (Str × Kind × Nat)))
-    (hx : ∀ n, ∀ a ∈ implicitList x n, a.2.2 < st.cnt a.2.1) : SInv g A B { st with implicit := x } :=
-  ⟨h.cnt, h.wsc, h.nodes, h.pkgs, hx, h.instances, h.imports, h.insts⟩
+theorem SInv.setImplicit {g : GraphVal} {A B C} {st : EncSt} (h : SInv g A B C st) (x : List (Nat × List (Str × Kind × Nat)))
+    (hx : ∀ n, ∀ a ∈ implicitList x n, a.2.2 < st.cnt a.2.1) : SInv g A B C { st with implicit := x } :=
+  ⟨h.cnt, h.wsc, h.nodes, h.pkgs, hx, h.instances, h.imports, h.insts, h.exports⟩
 
-theorem SInv.setNodeIdx {g : GraphVal} {A B} {st : EncSt} (h : SInv g A B st) (x : List (Nat × Nat))
-    (hx : ∀ n idx, natGet x n = some idx → idx < st.cnt (kindOf g n)) : SInv g A B { st with nodeIdx := x } :=
-  ⟨h.cnt, h.wsc, hx, h.pkgs, h.implicit, h.instances, h.imports, h.insts⟩
+theorem SInv.setNodeIdx {g : GraphVal} {A B C} {st : EncSt} (h : SInv g A B C st) (x : List (Nat × Nat))
+    (hx : ∀ n idx, natGet x n = some idx → idx < st.cnt (kindOf g n)) : SInv g A B C { st with nodeIdx := x } :=
+  ⟨h.cnt, h.wsc, hx, h.pkgs, h.implicit, h.instances, h.imports, h.insts, h.exports⟩
 
-theorem SInv.setPkgs {g : GraphVal} {A B} {st : EncSt} (h : SInv g A B st) (x : List (Nat × Nat))
-    (hx : ∀ s c, natGet x s = some c → c < st.cnt .component) : SInv g A B { st with pkgs := x } :=
-  ⟨h.cnt, h.wsc, h.nodes, hx, h.implicit, h.instances, h.imports, h.insts⟩
+theorem SInv.setPkgs {g : GraphVal} {A B C} {st : EncSt} (h : SInv g A B C st) (x : List (Nat × Nat))
+    (hx : ∀ s c, natGet x s = some c → c < st.cnt .component) : SInv g A B C { st with pkgs := x } :=
+  ⟨h.cnt, h.wsc, h.nodes, hx, h.implicit, h.instances, h.imports, h.insts, h.exports⟩
 
 /-! ### the import phase -/
 
-theorem importDeps_sinv {g : GraphVal} {A B} (ds : List Str) {st : EncSt} (h : SInv g A B st)
-    (hA : ∀ d ∈ ds, A d .instance) : SInv g A B (importDeps ds st) ∧ CntLe st (importDeps ds st) := by
+theorem importDeps_sinv {g : GraphVal} {A B C} (ds : List Str) {st : EncSt} (h : SInv g A B C st)
+    (hA : ∀ d ∈ ds, A d .instance) : SInv g A B C (importDeps ds st) ∧ CntLe st (importDeps ds st) := by
   induction ds generalizing st with
   | nil => exact ⟨h, CntLe.refl _⟩
   | cons d ds ih =>
@@ -188,9 +199,9 @@ theorem importDeps_sinv {g : GraphVal} {A B} (ds : List Str) {st : EncSt} (h : S
       have := ih h3 hA'
       exact ⟨this.1, hle.trans this.2⟩
 
-theorem importItem_sinv {g : GraphVal} {A B} {st : EncSt} (h : SInv g A B st) (name : Str) (ty : ItemTy)
+theorem importItem_sinv {g : GraphVal} {A B C} {st : EncSt} (h : SInv g A B C st) (name : Str) (ty : ItemTy)
     (hA : A name ty.kind) (hAd : ty.kind = .instance → ∀ d ∈ ty.deps, A d .instance) :
-    SInv g A B (importItem id st name ty).1 ∧ CntLe st (importItem id st name ty).1 ∧
+    SInv g A B C (importItem id st name ty).1 ∧ CntLe st (importItem id st name ty).1 ∧
       (importItem id st name ty).2 < (importItem id st name ty).1.cnt ty.kind := by
   unfold importItem
   cases hre : (if ty.kind = .instance then
@@ -214,7 +225,7 @@ theorem importItem_sinv {g : GraphVal} {A B} {st : EncSt} (h : SInv g A B st) (n
     · simp [hk] at hre
   | none =>
     simp only
-    have hd : SInv g A B (if ty.kind = .instance then importDeps (ty.deps.map id) st else st) ∧
+    have hd : SInv g A B C (if ty.kind = .instance then importDeps (ty.deps.map id) st else st) ∧
         CntLe st (if ty.kind = .instance then importDeps (ty.deps.map id) st else st) := by
       split
       · rename_i hk
@@ -257,10 +268,10 @@ theorem importItem_sinv {g : GraphVal} {A B} {st : EncSt} (h : SInv g A B st) (n
 def EncRange (st : EncSt) (l : List (Str × ItemTy)) (enc : List (Str × (Kind × Nat))) : Prop :=
   ∀ nm k idx, amGet enc nm = some (k, idx) → idx < st.cnt k ∧ ∃ ty, (nm, ty) ∈ l ∧ k = ty.kind
 
-theorem importAll_sinv {g : GraphVal} {A B} (l : List (Str × ItemTy)) {st : EncSt} {enc : List (Str × (Kind × Nat))}
-    (l0 : List (Str × ItemTy)) (h : SInv g A B st) (he : EncRange st l0 enc)
+theorem importAll_sinv {g : GraphVal} {A B C} (l : List (Str × ItemTy)) {st : EncSt} {enc : List (Str × (Kind × Nat))}
+    (l0 : List (Str × ItemTy)) (h : SInv g A B C st) (he : EncRange st l0 enc)
     (hA : ∀ e ∈ l, A e.1 e.2.kind ∧ (e.2.kind = .instance → ∀ d ∈ e.2.deps, A d .instance)) :
-    SInv g A B (importAll id l st enc).1 ∧ CntLe st (importAll id l st enc).1 ∧
+    SInv g A B C (importAll id l st enc).1 ∧ CntLe st (importAll id l st enc).1 ∧
       EncRange (importAll id l st enc).1 (l0 ++ l) (importAll id l st enc).2 ∧
       (∀ e ∈ l, amGet (importAll id l st enc).2 e.1 ≠ none) ∧
       (∀ nm, amGet enc nm ≠ none → amGet (importAll id l st enc).2 nm ≠ none) := by
@@ -301,10 +312,10 @@ theorem importAll_sinv {g : GraphVal} {A B} (l : List (Str × ItemTy)) {st : Enc
       · simp [hn]
       · simpa [hn] using hne
 
-theorem fillImplicit_sinv {g : GraphVal} {A B} {agg : Agg} {enc : List (Str × (Kind × Nat))} {l0 : List (Str × ItemTy)}
-    (L : List (Str × Nat)) {st st' : EncSt} (h : SInv g A B st) (hr : EncRange st l0 enc)
+theorem fillImplicit_sinv {g : GraphVal} {A B C} {agg : Agg} {enc : List (Str × (Kind × Nat))} {l0 : List (Str × ItemTy)}
+    (L : List (Str × Nat)) {st st' : EncSt} (h : SInv g A B C st) (hr : EncRange st l0 enc)
     (he : fillImplicit agg enc L st = .ok st') :
-    SInv g A B st' ∧ st'.cnt = st.cnt ∧ st'.items = st.items ∧ st'.nodeIdx = st.nodeIdx ∧ st'.pkgs = st.pkgs := by
+    SInv g A B C st' ∧ st'.cnt = st.cnt ∧ st'.items = st.items ∧ st'.nodeIdx = st.nodeIdx ∧ st'.pkgs = st.pkgs := by
   induction L generalizing st with
   | nil =>
     simp only [fillImplicit] at he
@@ -318,7 +329,7 @@ theorem fillImplicit_sinv {g : GraphVal} {A B} {agg : Agg} {enc : List (Str × (
     | some ki =>
       obtain ⟨k, idx⟩ := ki
       simp only [hq] at he
-      have h1 : SInv g A B { st with implicit := pushImplicit st.implicit node (name, k, idx) } :=
+      have h1 : SInv g A B C { st with implicit := pushImplicit st.implicit node (name, k, idx) } :=
         h.setImplicit _ (by
           intro n a ha
           rw [implicitList_push] at ha
@@ -332,11 +343,11 @@ theorem fillImplicit_sinv {g : GraphVal} {A B} {agg : Agg} {enc : List (Str × (
       obtain ⟨r1, r2, r3, r4, r5⟩ := ih h1 hr he
       exact ⟨r1, r2, r3, r4, r5⟩
 
-theorem fillExplicit_sinv {g : GraphVal} {A B} {agg : Agg} {enc : List (Str × (Kind × Nat))} {l0 : List (Str × ItemTy)}
-    (L : List (Str × Nat)) {st st' : EncSt} (h : SInv g A B st) (hr : EncRange st l0 enc)
+theorem fillExplicit_sinv {g : GraphVal} {A B C} {agg : Agg} {enc : List (Str × (Kind × Nat))} {l0 : List (Str × ItemTy)}
+    (L : List (Str × Nat)) {st st' : EncSt} (h : SInv g A B C st) (hr : EncRange st l0 enc)
     (hk : ∀ e ∈ L, ∀ k idx, amGet enc (agg.canonical e.1) = some (k, idx) → k = kindOf g e.2)
     (he : fillExplicit agg enc L st = .ok st') :
-    SInv g A B st' ∧ st'.cnt = st.cnt ∧ st'.items = st.items ∧ st'.implicit = st.implicit ∧ st'.pkgs = st.pkgs := by
+    SInv g A B C st' ∧ st'.cnt = st.cnt ∧ st'.items = st.items ∧ st'.implicit = st.implicit ∧ st'.pkgs = st.pkgs := by
   induction L generalizing st with
   | nil =>
     simp only [fillExplicit] at he
@@ -351,7 +362,7 @@ theorem fillExplicit_sinv {g : GraphVal} {A B} {agg : Agg} {enc : List (Str × (
       obtain ⟨k, idx⟩ := ki
       simp only [hq] at he
       have hkk := hk (name, node) (List.mem_cons_self ..) k idx hq
-      have h1 : SInv g A B { st with nodeIdx := st.nodeIdx ++ [(node, idx)] } :=
+      have h1 : SInv g A B C { st with nodeIdx := st.nodeIdx ++ [(node, idx)] } :=
         h.setNodeIdx _ (by
           intro n i hq'
           rw [natGet_snoc] at hq'
